@@ -390,6 +390,8 @@ const CASES: &[&str] = &[
     "10 PRINT 1\n20 PRINT )\nTRON\nRUN\nGOTO 10\nGOSUB 10\n=> ?SYNTAX ERROR IN 20:10; EXPECTED EXPRESSION\\n?SYNTAX ERROR IN 20:10; EXPECTED EXPRESSION\\n?SYNTAX ERROR IN 20:10; EXPECTED EXPRESSION\\n",
     "10 IF A THEN 50 ELSE 60\nRUN\n=> ?UNDEFINED LINE IN 10:14\\n?UNDEFINED LINE IN 10:22\\n",
     "10 RESTORE 99\nRUN\n=> ?UNDEFINED LINE IN 10:12\\n",
+    "10 ERASE\nRUN\n=> ?SYNTAX ERROR IN 10:4; EXPECTED VARIABLE\\n",
+    "10 A=1:ERASE:PRINT 2\nRUN\n=> ?SYNTAX ERROR IN 10:8; EXPECTED VARIABLE\\n",
 ];
 
 fn gen_cases(part: usize, parts: usize, _th: bool, emit: &mut dyn FnMut(&str)) {
@@ -421,14 +423,105 @@ fn check_case(item: &str, _ctx: &Ctx) -> Outcome {
     Outcome::pass(true, hash_str(item)).with_case(item.to_string())
 }
 
+
+// ------------------------------------------------------------------ statements cut short
+
+/// Byte offsets at which a statement text can be cut between two tokens.
+fn cut_points(s: &str) -> Vec<usize> {
+    let mut v = vec![];
+    let cs: Vec<(usize, char)> = s.char_indices().collect();
+    let mut i = 0;
+    while i < cs.len() {
+        let (_, c) = cs[i];
+        if c == '"' {
+            i += 1;
+            while i < cs.len() && cs[i].1 != '"' {
+                i += 1;
+            }
+            i += 1;
+        } else if c.is_alphanumeric() || c == '.' {
+            while i < cs.len() && (cs[i].1.is_alphanumeric() || ".$%!#".contains(cs[i].1)) {
+                i += 1;
+            }
+        } else {
+            i += 1;
+        }
+        v.push(if i < cs.len() { cs[i].0 } else { s.len() });
+    }
+    v.dedup();
+    v
+}
+
+fn gen_prefixes(part: usize, parts: usize, _th: bool, emit: &mut dyn FnMut(&str)) {
+    let mut idx = 0;
+    for sn in crate::textgen::SNIPPETS {
+        for cut in cut_points(sn) {
+            for lead in ["", "A=1:", "PRINT \"日本\":"] {
+                idx += 1;
+                if idx % parts == part {
+                    emit(&format!("10 {}{}", lead, sn[..cut].trim_end()));
+                }
+            }
+        }
+    }
+}
+
+/// A statement that stops after any of its tokens either still compiles or is reported with a
+/// position inside the line - wherever on the line it stands.
+fn check_prefix(item: &str, _ctx: &Ctx) -> Outcome {
+    let mut term = Term::new();
+    let mut o = Opts::default();
+    o.max_calls = 40;
+    o.quantum = 200;
+    term.line(item, &mut o);
+    if !term.take().is_empty() {
+        return Outcome::discard("the line is refused at entry");
+    }
+    let listed = match term.listing_text().first() {
+        Some(l) => l.clone(),
+        None => return Outcome::discard("nothing stored"),
+    };
+    term.line("TRON", &mut o);
+    term.take();
+    term.line("RUN", &mut o);
+    let evs = term.take();
+    if let Some(m) = has_panic(&evs) {
+        return Outcome::fail("panic", m, item.to_string());
+    }
+    let out = printed(&evs);
+    let errs: Vec<String> = evs.iter().flat_map(|e| if let Ev::Errs(v) = e { v.clone() } else { vec![] }).collect();
+    if out.contains('[') || errs.is_empty() {
+        return Outcome::pass(false, hash_str(item)).with_labels(vec!["the cut statement compiles"]);
+    }
+    let width = listed.chars().count();
+    for e in &errs {
+        let (code, line, col) = match parse_err(e) {
+            Some(x) => x,
+            None => return Outcome::fail("malformed-diagnostic", e.clone(), item.to_string()),
+        };
+        if line != Some(10) {
+            return Outcome::fail("diagnostic-without-line", format!("{:?} does not name line 10 (listed: {:?})", e, listed), item.to_string());
+        }
+        if code.contains("SYNTAX ERROR") || code.contains("UNDEFINED LINE") || code.contains("WITHOUT") {
+            match col {
+                None => return Outcome::fail("diagnostic-without-column", format!("{:?} names line 10 but no column (listed: {:?})", e, listed), item.to_string()),
+                Some(c) if c < 1 || c > width + 1 => return Outcome::fail("diagnostic-column-outside-line", format!("{:?}: column {} is outside {:?}", e, c, listed), item.to_string()),
+                _ => {}
+            }
+        }
+    }
+    Outcome::pass(true, hash_str(item)).with_case(format!("{}  -> {}", listed, errs.join(" / ")))
+}
+
 pub fn property() -> Property {
     Property {
         id: "C19",
         rule: "Cases: proptest-generated well-formed programs with 1-3 injected faults: a line-number operand of any referencing form (GOTO, GOSUB, THEN n, ELSE n, IF..GOTO, any position of an ON list, RESTORE n) retargeted to a missing line, a referenced line deleted, an extra WEND or WHILE appended, token-level damage (one token dropped, replaced or inserted), with multi-byte string literals placed in front of the fault on the same line. \
 Oracle: after TRON + RUN only diagnostics appear (no `[n]`, no program output); every diagnostic names a line that is in the listing and a column inside its listed text; LIST's underline ranges lie inside the listed text; without token damage the reported set equals, as a multiset, the set computed from the canonical printer's span table: \
 UNDEFINED LINE exactly at each dangling operand, WHILE WITHOUT WEND / WEND WITHOUT WHILE exactly at the unmatched keyword (source-order pairing), both in the `IN n:col` text and in the underline ranges. Gate: RUN n, GOTO n, GOSUB n, IF 1 THEN n, ON 1 GOTO/GOSUB n and CONT execute no line, PRINT 6*7 prints 42. \
-Non-trivial: the fault is preceded by a multi-byte character or is not in the first statement of its line. Distinct by program text.",
+(statement_prefixes) every statement of the snippet corpus cut after each of its tokens, standing first on the line, behind another statement and behind a multi-byte literal: it compiles, or every diagnostic names the line and a column inside its listed text. \
+Non-trivial: the fault is preceded by a multi-byte character or is not in the first statement of its line / the cut statement is refused. Distinct by program text.",
         assumptions: vec!["when a line has a syntax error the link-time diagnostics of the program are not shown by the implementation (only the syntax errors); the exact-set comparison is therefore made for programs without token damage", "LIST/DELETE operands naming missing lines are not references that must resolve"],
-        subs: vec![Sub::items("diagnostic_cases", gen_cases, check_case, false), Sub::tape("injected_faults", check_faults, 200_000, 4_000_000, 900)],
+        subs: vec![Sub::items("diagnostic_cases", gen_cases, check_case, false), Sub::items("statement_prefixes", gen_prefixes, check_prefix, false), Sub::tape("injected_faults", check_faults, 200_000, 4_000_000, 900)],
     }
 }
